@@ -95,7 +95,6 @@ var Authors = func() []Author {
 	return out
 }()
 
-var zeroSig = strings.Repeat("0", 128)
 
 // MkEvent builds an event whose id is the SHA-256 of its canonical form. With
 // sign=false the signature is a syntactically valid placeholder (handlers behind
@@ -112,7 +111,7 @@ func MkEvent(author int, kind, createdAt int64, tags [][]string, content string,
 		CreatedAt: createdAt,
 		Kind:      kind,
 		Content:   content,
-		Sig:       zeroSig,
+		Sig:       fakeSig(id[:]),
 	}
 	ev.Tags = make([]mocrelay.Tag, len(tags))
 	for i, t := range tags {
@@ -126,6 +125,15 @@ func MkEvent(author int, kind, createdAt int64, tags [][]string, content string,
 		ev.Sig = hex.EncodeToString(sig.Serialize())
 	}
 	return ev
+}
+
+// fakeSig is the signature field of events that are not really signed: 128 hex
+// digits that differ from event to event (a store that mixes up signatures of
+// two events must show), derived from the id.
+func fakeSig(id []byte) string {
+	a := sha256.Sum256(append([]byte("verif-sig-a"), id...))
+	b := sha256.Sum256(append([]byte("verif-sig-b"), id...))
+	return hex.EncodeToString(a[:]) + hex.EncodeToString(b[:])
 }
 
 // Class of an event per NIP-01.
